@@ -33,3 +33,4 @@ done
 (cd /verif && VERIF_REPO=$WT ./check $P) > $S/check.out 2>&1; R_CHECK=$?
 cat $S/check.out >>$LOG
 echo "$P $(basename $S): demo_clean_rc=$R_CLEAN demo_patched_rc=$R_PATCHED existing_tests_rc=$R_EXIST check_rc=$R_CHECK $(grep -c VIOLATION $S/check.out) violation-lines"
+find ~/.cache/go-build -type f -mmin +240 -not -name trim.txt -not -name README -delete 2>/dev/null
